@@ -257,6 +257,24 @@ def check(tier: str) -> Report:
         else:
             os.environ["TZ"] = old_tz
         _t.tzset()
+    # ---- an HTTP-date is an instant: the hint follows the clock ---------------------
+    from . import vtime as _vt
+    target = datetime.now(UTC).replace(microsecond=0) + timedelta(seconds=500)
+    text = format_datetime(target, usegmt=True)
+
+    def date_hint():
+        exc = type("Http429", (Exception,), {})("rate limited")
+        exc.status = 429
+        exc.headers = {"Retry-After": text}
+        out = http_retry_after_classifier(exc)
+        return out.retry_after_s if isinstance(out, Classification) else None
+    h1 = date_hint()
+    _vt._real["sleep"](1.3)
+    h2 = date_hint()
+    evaluations += 2
+    if h1 is None or h2 is None or not (0.8 <= h1 - h2 <= 2.5):
+        viol("C20:hint-differs-from-documented-value", "C20/value/date-hint-does-not-follow-the-clock",
+             {"header": text, "first_hint": h1, "hint_1.3_s_later": h2})
     # ---- honouring ---------------------------------------------------------------
     honour_eval = 0
     real_uniform = strategies.random.uniform
